@@ -91,8 +91,12 @@ def r1_tempfiles(ctx):
         tab = text(tables[0].targets[0].value)
         rm = None
         for lp in f.own_nodes():
-            if isinstance(lp, ast.For) and text(lp.iter).replace(" ", "") in (
-                    "%s.values()" % tab,):
+            its = [text(lp.iter).replace(" ", "")] if isinstance(lp, ast.For) else []
+            if its and isinstance(lp.iter, ast.Call) and \
+                    text(lp.iter.func) in ("itertools.chain", "chain"):
+                # one loop over several tables, one after the other
+                its = [text(a).replace(" ", "") for a in lp.iter.args]
+            if isinstance(lp, ast.For) and "%s.values()" % tab in its:
                 for c in _walk(lp.body):
                     if isinstance(c, ast.Call) and text(c.func) in (
                             "os.remove", "os.unlink") and c.args and \
